@@ -5,8 +5,10 @@ import Deb822Verif.Model.RelParse
 import Deb822Verif.Model.Pgp
 import Deb822Verif.Driver.Codec
 import Deb822Verif.Driver.Rel
-/-! C02: acceptance class of each modelled text entry point; `*` for entry points the model does
-    not cover (their totality is exercised on the real code only). -/
+import Deb822Verif.Driver.TypedDoc
+/-! C02: acceptance class of each modelled text entry point (`total <entry> <text>`; the nine lossy
+    typed document readers take a third argument, the E column of `typed.<kind>`); `*` only for an
+    entry point the model does not cover. -/
 namespace Deb822Verif.Driver.Total
 open Deb822Verif Proto
 
@@ -90,8 +92,32 @@ def entryClass (entry : String) (s : Str) : String :=
        | none => "*")
     | none => "*"
 
+/-- the nine lossy typed document readers: entry point -> document kind of `Model/TypedDoc.lean` -/
+def typedKind : String → Option String
+  | "lctl.control" => some "control"
+  | "lctl.release" => some "release"
+  | "lctl.source" => some "source"
+  | "lctl.package" => some "package"
+  | "lctl.buildinfo" => some "buildinfo"
+  | "lctl.removal" => some "removal"
+  | "cpr.lossy" => some "copyright"
+  | "dep3.lossy" => some "dep3"
+  | "apt.repos" => some "repos"
+  | _ => none
+
+/-- acceptance class of a typed document reader: `TypedDoc.parse` over the generated struct table,
+    external leaf codecs answered by the request's E column -/
+def typedClass (entry : String) (s : Str) (e : String) : Option String := do
+  let kind ← typedKind entry
+  let o ← TypedDoc.decOracle e
+  let ki ← TypedDoc.kindFor o kind
+  pure (cls (isOk (Deb822Verif.TypedDoc.parse ki.kind s)))
+
 def handle (op : String) (args : List String) : Option String :=
   match op, args with
+  | "total", [entry, t, e] => do
+    let s ← decStr t
+    pure ((typedClass entry s e).getD "*")
   | "total", [entry, t] => do
     let s ← decStr t
     pure (entryClass entry s)
